@@ -91,4 +91,7 @@ def run(tier="quick", seed=0, use_cache=True):
     res.samples = [{"codec_facts_OO": out["OO"]["facts"]},
                    {"embedded_form_guard_OO": out["OO"]["embed"]}]
     res.units = {"translation_units": len(out), "python_codecs": 6}
+    from ..rules import typeexact
+    typeexact.extend(res, use_cache)
+    res.explanation += ' TYPE-EXACT: state loading classifies children through subclass-tolerant type tests (an application subclass of a leaf type must load).'
     return res
